@@ -842,10 +842,12 @@ class Scope:
 
     def _walk(self, n: GNode, anc, seen):
         if n.uid in seen:
+            if n.uid == self.root.uid and anc:
+                self.members.append((n, anc))    # recursive reference to the rule itself
             return
         seen = seen | {n.uid}
         self.members.append((n, anc))
-        if n is not self.root and n.action is not None:
+        if anc and n.action is not None:
             return                       # opaque value
         if n.kind in ("Suppress", "OriginalTextFor", "Combine"):
             return                       # nothing below reaches the results individually
